@@ -39,7 +39,10 @@ def strategy(allow_default):
         offsets = draw(st.one_of(st.just([]), st.just([]), st.lists(st.fixed_dictionaries({
             'col': st.integers(0, total - 1), 'exp': st.floats(4.0, 9.0), 'neg': st.booleans()}), min_size=1, max_size=2)))
         return {'table': table, 'derived': ops, 'config': cfg, 'prefit_seed': draw(st.one_of(st.none(), st.none(), S.SEEDS)),
-                'offsets': offsets}
+                'offsets': offsets,
+                # the table under test given as a plain array (its training columns are then 0..d-1), possibly after an
+                # earlier fit of the same object on a labelled DataFrame
+                'as_array': draw(st.sampled_from([False, False, False, True]))}
 
     return cases()
 
@@ -55,11 +58,18 @@ def oracle(case):
         col = names[off['col'] % d]
         x = df[col].to_numpy().astype(float)
         df[col] = x + (-1.0 if off['neg'] else 1.0) * 10.0 ** off['exp'] * (float(np.std(x)) or 1.0)
+    as_array = bool(case.get('as_array')) and case['config']['mode'] == 'single'
     model = M.build_gaussian(case['config'], names)
     if case.get('prefit_seed') is not None:
         # history: the same object was fitted on another table (same schema) before
         value(model.fit, M.variant_table(df, case['prefit_seed']), what='GaussianMultivariate.fit (earlier table)')
-    value(model.fit, df.copy(), what='GaussianMultivariate.fit')
+    if as_array:
+        value(model.fit, df.to_numpy().astype(float), what='GaussianMultivariate.fit (ndarray)')
+        df = df.copy()
+        df.columns = list(range(d))
+        names = list(range(d))
+    else:
+        value(model.fit, df.copy(), what='GaussianMultivariate.fit')
     corr = model.correlation
     require(isinstance(corr, pd.DataFrame), 'correlation is %s, not a DataFrame' % type(corr).__name__, tag='type')
     require(list(corr.index) == names and list(corr.columns) == names,
@@ -181,6 +191,8 @@ def oracle(case):
     if case.get('offsets'):
         cls.append('offset-column')
     cls += cls_extra
+    if as_array:
+        cls.append('ndarray-table')
     return {'nontrivial': d >= 3 or bool(degenerate), 'classes': cls}
 
 
